@@ -35,6 +35,8 @@ def const_model(m, s):
     if mm:
         # lyon_geom's generic Scalar constants; mina instantiates CubicBezierSegment only at f32
         return Sc('f32', z3.FPVal({'ZERO': 0.0, 'ONE': 1.0, 'TWO': 2.0, 'THREE': 3.0, 'FOUR': 4.0, 'FIVE': 5.0, 'SIX': 6.0, 'HALF': 0.5}[mm.group(1)], F32))
+    if s.endswith('SizedTypeProperties>::ALIGN'): return Sc('usize', z3.BitVecVal(8, 64))
+    if s.endswith('SizedTypeProperties>::SIZE'): return Sc('usize', z3.BitVecVal(16, 64))
     if 'Lazy::<' in s and s.endswith('::INIT'):
         return Agg('Lazy', [])
     if s.endswith('PhantomData') or 'PhantomData::<' in s:
@@ -971,8 +973,16 @@ def _box_new(m, q, args, callee):
 
 @_m(PATH_MODELS, (None, 'clone_box'), ('dyn_clone', 'clone_box'))
 def _clone_box(m, q, args, callee):
-    v = deref_all(m, args[0])
+    # clone_box<T: ?Sized + DynClone>(t: &T) -> Box<T>.  For T = Box<dyn Trait> the clone of T is a new box of the cloned object
+    v = m.load(args[0]) if isinstance(args[0], Ref) else args[0]
+    if isinstance(v, Ref):
+        return m.alloc(m.alloc(clone_value(m, deref_all(m, v))))
     return m.alloc(clone_value(m, v))
+
+
+@_m(TRAIT_MODELS, ('Drop', 'drop'))
+def _drop(m, q, args, callee):
+    return UNIT
 
 
 @_m(PATH_MODELS, ('Lazy', 'get'))
@@ -1371,3 +1381,60 @@ def _dur_addsub(m, q, args, callee):
     if isinstance(a, Sc) and isinstance(b, Sc):
         return m.binop('Add' if callee.endswith('add') else 'Sub', a, b)
     return NotImplemented
+
+
+@_m(PATH_MODELS, ('slice', 'chunks'), ('slice', 'windows'), ('slice', 'chunks_exact'))
+def _chunks(m, q, args, callee):
+    """read-only views: each chunk / window is a fresh sequence holding the same element values"""
+    items, ref = seq_of(m, args[0])
+    n = concrete(args[1].t)
+    if n is None or n == 0: raise Unsupported('symbolic / zero chunk size')
+    out = []
+    if callee.endswith('windows'):
+        for i in range(0, len(items) - n + 1):
+            out.append(m.alloc(VecObj(list(items[i:i + n]))))
+    else:
+        for i in range(0, len(items), n):
+            ch = list(items[i:i + n])
+            if callee.endswith('chunks_exact') and len(ch) < n: break
+            out.append(m.alloc(VecObj(ch)))
+    return Opaque('iter_owned', items=out, idx=0)
+
+
+@_m(PATH_MODELS, ('slice', 'is_sorted_by'), ('slice', 'is_sorted_by_key'))
+def _is_sorted_by(m, q, args, callee):
+    raise Unsupported('is_sorted_by: not modelled')
+
+
+@_m(PATH_MODELS, ('slice', 'split_first'), ('slice', 'split_last'))
+def _split_first(m, q, args, callee):
+    items, ref = seq_of(m, args[0])
+    if not items: return none()
+    if callee.endswith('split_first'):
+        return some(Agg(None, [elem_ref(ref, 0), m.alloc(VecObj(list(items[1:])))]))
+    return some(Agg(None, [elem_ref(ref, len(items) - 1), m.alloc(VecObj(list(items[:-1])))]))
+
+
+@_m(PATH_MODELS, ('slice', 'to_vec'), ('slice', 'to_owned'))
+def _to_vec(m, q, args, callee):
+    items, ref = seq_of(m, args[0])
+    return VecObj([clone_value(m, x) for x in items])
+
+
+@_m(PATH_MODELS, ('slice', 'reverse'))
+def _reverse(m, q, args, callee):
+    items, ref = seq_of(m, args[0]); items.reverse(); return UNIT
+
+
+@_m(PATH_MODELS, ('slice', 'swap'))
+def _slice_swap(m, q, args, callee):
+    items, ref = seq_of(m, args[0]); i, j = concrete(args[1].t), concrete(args[2].t)
+    if i is None or j is None: raise Unsupported('symbolic swap')
+    items[i], items[j] = items[j], items[i]; return UNIT
+
+
+@_m(PATH_MODELS, ('slice', 'sort_by_key'), ('slice', 'sort_unstable_by'))
+def _sort_variants(m, q, args, callee):
+    if callee.endswith('sort_unstable_by'):
+        raise Unsupported('sort_unstable_by: order of equal elements unspecified')
+    raise Unsupported('sort_by_key: not modelled')
